@@ -122,7 +122,7 @@ def firstFailing (G : Grammar) (T : Tables) (A : Automaton) (ann : Ann) : String
   else if !checkItems G T A ann then "invalid V2-items"
   else "valid"
 
-def buildFuel : Nat := 4000
+def buildFuel : Nat := 20000
 
 structure Sess where
   G : Grammar := default
